@@ -6,6 +6,7 @@
   tools/mutation.py checks [-j N] [-n SAMPLE]     every (sampled) mutant that compiles and passes the pinned suite is given
                                                    to the registered quick checks until one reports it   -> mutation/checks.jsonl
   tools/mutation.py report                        -> mutation/REPORT.md
+  (-s2 selects the second operator set; its files are suite2.jsonl, checks2.jsonl, REPORT2.md)
 
 Works on scratch copies of the repository and of /verif under /tmp/mutwork (removed at the end); /repo itself is
 never touched. The repository copy is taken from $VP_RUN_REPO (vp run --with-repo) or /repo.
@@ -14,12 +15,14 @@ import json, os, random, shutil, subprocess, sys, time, threading, queue
 
 ROOT = os.path.dirname(os.path.dirname(os.path.abspath(__file__)))
 SRC_REPO = os.environ.get("VP_RUN_REPO") or "/repo"
-WORK = "/tmp/mutwork"
+WORK = "/tmp/mutwork.%d" % os.getpid()
 OUT = os.path.join(ROOT, "mutation")
 FILES = ["emitter/emitter.go", "emitter/chunk.go", "emitter/branch.go", "parser/parser.go", "parser/formattext.go", "lexer/lexer.go", "ast/ast.go"]
 ENV = dict(os.environ, GOFLAGS="-mod=mod", GOPROXY="off", GOSUMDB="off", GOTOOLCHAIN="local")
 ALL = ["C%02d" % i for i in range(1, 21)]
 MEM_LIMIT = 8 << 30
+SET = 2 if "-s2" in sys.argv else 1   # operator set (see tools/mutate/main.go)
+SUF = "2" if SET == 2 else ""
 ORDER = {
     "emitter/emitter.go": ["C04", "C01", "C05", "C06", "C08", "C09", "C14", "C16", "C03", "C15", "C10", "C11", "C17"],
     "emitter/chunk.go": ["C04", "C01", "C05", "C10", "C16", "C20"],
@@ -62,10 +65,10 @@ def build_tool():
 def list_mutants():
     ms = []
     for f in FILES:
-        rc, out = sh([os.path.join(WORK, "mutate"), "list", f], SRC_REPO, 60)
+        rc, out = sh([os.path.join(WORK, "mutate"), "list" + ("2" if SET == 2 else ""), f], SRC_REPO, 60)
         for line in out.splitlines():
             m = json.loads(line)
-            m["key"] = "%s#%d" % (f, m["id"])
+            m["key"] = "%s#%s%d" % (f, "b" if SET == 2 else "", m["id"])
             ms.append(m)
     return ms
 
@@ -135,7 +138,7 @@ def seen(path):
 def phase_suite(nworkers):
     build_tool()
     os.makedirs(OUT, exist_ok=True)
-    outpath = os.path.join(OUT, "suite.jsonl")
+    outpath = os.path.join(OUT, "suite%s.jsonl" % SUF)
     have = seen(outpath)
     ms = [m for m in list_mutants() if m["key"] not in have]
     print("%d mutants to run through the pinned suite" % len(ms), flush=True)
@@ -157,12 +160,12 @@ def phase_suite(nworkers):
 
 def phase_checks(nworkers, sample):
     os.makedirs(OUT, exist_ok=True)
-    surv = [r for r in seen(os.path.join(OUT, "suite.jsonl")).values() if r["status"] == "suite-survived"]
+    surv = [r for r in seen(os.path.join(OUT, "suite%s.jsonl" % SUF)).values() if r["status"] == "suite-survived"]
     surv.sort(key=lambda r: r["key"])
     if sample and len(surv) > sample:
         random.Random(20261004).shuffle(surv)
         surv = surv[:sample]
-    outpath = os.path.join(OUT, "checks.jsonl")
+    outpath = os.path.join(OUT, "checks%s.jsonl" % SUF)
     have = seen(outpath)
     surv = [r for r in surv if r["key"] not in have]
     print("%d suite-surviving mutants to give to the quick checks" % len(surv), flush=True)
@@ -194,20 +197,20 @@ def phase_checks(nworkers, sample):
 
 
 def phase_report():
-    suite = seen(os.path.join(OUT, "suite.jsonl"))
-    checks = seen(os.path.join(OUT, "checks.jsonl"))
+    suite = seen(os.path.join(OUT, "suite%s.jsonl" % SUF))
+    checks = seen(os.path.join(OUT, "checks%s.jsonl" % SUF))
     from collections import Counter
     c1 = Counter(r["status"] for r in suite.values())
     c2 = Counter(r["status"] for r in checks.values())
     by = Counter(r.get("by") for r in checks.values() if r["status"] == "killed")
-    with open(os.path.join(OUT, "REPORT.md"), "w") as f:
+    with open(os.path.join(OUT, "REPORT%s.md" % SUF), "w") as f:
         f.write("# Mutation analysis\n\n%d mutants: %s\n\nquick checks on %d suite-surviving mutants: %s\n\nkilled by (first check that reported it): %s\n\n" % (
             len(suite), dict(c1), len(checks), dict(c2), dict(sorted(by.items()))))
         f.write("## Mutants no quick check reported\n\n| mutant | line | function | operator | original | not-conclusive checks |\n|---|---|---|---|---|---|\n")
         for r in sorted(checks.values(), key=lambda r: (r["file"], r["line"])):
             if r["status"] == "survived":
                 f.write("| %s | %d | %s | %s | `%s` | %s |\n" % (r["key"], r["line"], r["func"], r["op"], r["orig"].replace("|", "\\|"), ",".join(r.get("infra", []))))
-    print(open(os.path.join(OUT, "REPORT.md")).read()[:3000])
+    print(open(os.path.join(OUT, "REPORT%s.md" % SUF)).read()[:3000])
 
 
 if __name__ == "__main__":
